@@ -38,6 +38,10 @@ def real_cases(scratch, repo, have_testmods):
         C("usage", "option of the other personality", ex + ["-e", "/x"] + cmd),
         C("hostSpec", "malformed -w word", ["-R", "exec", "-w", "bob@exec:h0"] + cmd),
         C("hostSpec", "unknown transport in a -w word", ["-R", "exec", "-w", "nosuchrcmd:h0"] + cmd),
+        # a target word that does not parse is refused, not dropped (the other word would run and the exit status be 0)
+        C("hostSpec", "-w word that does not parse, next to a good one", ["-S", "-R", "exec", "-w", "h0,a[1"] + cmd),
+        C("hostSpec", "-w word that only fails to parse after its first expansion (more than 10240 ranges)",
+          ["-S", "-R", "exec", "-w", "h0,a[1-2]b[" + ",".join(str(2 * i) for i in range(10300)) + "]"] + cmd),
         C("wcollFile", "unreadable target file", ["-R", "exec", "-w", "^/nonexistent/file"] + cmd),
         C("unknownRcmd", "-R unknown", ["-w", "h0", "-R", "nosuchrcmd"] + cmd),
         C("unknownRcmd", "PDSH_RCMD_TYPE unknown", ["-w", "h0"] + cmd, env={"PDSH_RCMD_TYPE": "nosuchrcmd"}),
